@@ -757,3 +757,9 @@ def describe_case(case: dict) -> dict:
 
 
 execute = case_execute(build, oracle, None, describe_case)
+
+
+# wave h documentation (what was added to the enumeration; see DESIGN.md 11.0)
+_WAVE_H = "+ after its 1009 Close the server completes the closing handshake when the client's Close arrives (application told; HTTP/1.1 connection closed)"
+RULE = RULE + " " + _WAVE_H
+BOUNDS_DOC = {k: v + " " + _WAVE_H for k, v in BOUNDS_DOC.items()}
